@@ -17,6 +17,9 @@ errors; writes frame all other bits), spec/BitsTable.tla, spec/BitsObjTrace.tla.
      clog2(2^k + d) for every k <= 1023, d in {-1, 0, 1}, plus random N up to 1023 bits; all validated by
      TLC (values as limbs).
   4. canaries.
+  5. signal slices: s.in_[lo:hi] and slices of slices s.in_[a:b][lo:hi] of a port (legal in connect
+     statements), every bound pair in -1..w+1: rejected exactly when the same expression on a Bits value is
+     an error, and otherwise the net member reads exactly the bits the Bits expression names.
 
 NOTE: exhaustive for widths <= 6 (reads) / 4-5 (writes); larger widths sampled. A slice step is an error
 whatever its value (also 0). Open in the statement, hence any outcome admitted: zext/sext to a narrower and
@@ -150,9 +153,84 @@ def _clog2_traces(nrandom):
     return traces, len(ns)
 
 
+def _signal_slices(res, quick):
+    """x[lo:hi] and x[a:b][lo:hi] written on a SIGNAL (legal in connect statements) must name exactly the
+    bits the same expression names on a Bits value -- which this run validates against BitsObj.tla for
+    every lo, hi of every width <= 6 -- and must be rejected exactly when it is rejected there."""
+    from pymtl3 import Bits, Component, DefaultPassGroup, InPort, OutPort, connect, mk_bits
+    W = 6 if quick else 7
+    vals = [0b101101 & ((1 << W) - 1), 0b1010011 & ((1 << W) - 1), (1 << W) - 1]
+    rg = range(-1, W + 2)
+
+    def ref(v, sls):
+        x = Bits(W, v)
+        try:
+            for (lo, hi) in sls:
+                x = x[lo:hi]
+            return int(x), x.nbits
+        except Exception:      # noqa: BLE001
+            return None
+    cases = [((a, b),) for a in rg for b in rg]
+    for a in range(W):
+        for b in range(a + 1, W + 1):
+            n = b - a
+            cases += [((a, b), (lo, hi)) for lo in range(-1, n + 2) for hi in range(-1, n + 2)]
+            if not quick and n >= 2:
+                cases += [((a, b), (0, n), (lo, hi)) for lo in range(-1, n + 2) for hi in range(-1, n + 2)]
+    nvalid = nrej = 0
+    for sls in cases:
+        exp = ref(vals[0], sls)
+        text = "s.in_" + "".join("[%d:%d]" % sl for sl in sls)
+
+        class T(Component):
+            def construct(s):
+                s.in_ = InPort(mk_bits(W))
+                v = s.in_
+                for (lo, hi) in sls:
+                    v = v[lo:hi]
+                s.out = OutPort(mk_bits(exp[1] if exp else 1))
+                connect(s.out, v)
+        try:
+            t = T()
+            t.elaborate()
+            got = "accepted"
+        except Exception as e:      # noqa: BLE001
+            got = type(e).__name__
+            t = None
+        res.add_evals()
+        res.distinct(("sigslice", sls))
+        if exp is None:
+            nrej += 1
+            if t is not None:
+                res.violation("signal-slice:w=%d:%s:invalid-slice-accepted" % (W, text),
+                              "connect( s.out, %s ) on a Bits%d port is accepted although the same slice of a Bits%d "
+                              "value is an error (bounds outside 0 <= lo < hi <= width)" % (text, W, W))
+            continue
+        nvalid += 1
+        if t is None:
+            res.violation("signal-slice:w=%d:%s:valid-slice-rejected:%s" % (W, text, got),
+                          "connect( s.out, %s ) on a Bits%d port raises %s although the slice is valid" % (text, W, got))
+            continue
+        t.apply(DefaultPassGroup())
+        t.sim_reset()
+        for v in vals:
+            t.in_ @= v
+            t.sim_eval_combinational()
+            want = ref(v, sls)[0]
+            if int(t.out) != want:
+                res.violation("signal-slice:w=%d:%s:wrong-bits" % (W, text),
+                              "%s of value %s reads %s through the net, the Bits value gives %s"
+                              % (text, bin(v), bin(int(t.out)), bin(want)))
+                break
+    if nvalid < 50 or nrej < 50:
+        raise common.MachineryError("signal slice family degenerate: %d valid, %d invalid" % (nvalid, nrej))
+    res.note("signal_slices", {"width": W, "valid": nvalid, "invalid": nrej})
+
+
 def run(res, tier):
     quick = tier == "quick"
     WS = 4 if quick else 5
+    _signal_slices(res, quick)
     with common.scratch() as sd, L.new_pool() as pool:
         bv = L.bv_selfcheck_submit(tier, pool)
         jobs = [("setslice", WS, WS, 0), ("setslice", 1, WS - 1, 0), ("clog2", 1, 1, 8192 if quick else 16384),
